@@ -126,6 +126,7 @@ class NodeSim(object):
         self.pending_tomb = {}   # instance -> container awaiting its tombstone
         self.two_generations = False
         self.sync_with_cleanup = False
+        self.replaced_backlog = False
         self.n_syncs = 0
         self._saved = []
 
@@ -359,6 +360,34 @@ class NodeSim(object):
                 'the synchronisation; %s' % (self._tag(cont),
                                              self._describe()))
 
+    def _check_quiescent(self):
+        """Event quiescence: the queue is empty and the manager is active, so
+        every cache change since the last synchronisation was handled by an
+        active manager (it only becomes active again through a
+        synchronisation, and a restart - the only way to lose events - makes
+        it inactive).  The running links must then follow the cache; a cached
+        instance without a running link is fine here (finished containers are
+        not restarted, unconfigurable manifests never run)."""
+        cache = self.cache()
+        for inst, cont in sorted(self.links('running').items()):
+            if cont not in self.registry:
+                continue
+            entry = cache.get(inst)
+            if entry is None:
+                raise Violation(
+                    'c13.quiescent.running-not-cached',
+                    'all events are handled, the manager is active, and '
+                    'running/%s -> %s although the instance has no cache '
+                    'entry; %s' % (inst, self._tag(cont), self._describe()))
+            if entry['gen'] != self.registry[cont][1]:
+                raise Violation(
+                    'c13.quiescent.running-stale-generation',
+                    'all events are handled, the manager is active, and '
+                    'running/%s -> %s although the cache holds generation '
+                    '%d; %s' % (inst, self._tag(cont), entry['gen'],
+                                self._describe()))
+        self.stats.count('quiescent_checks')
+
     def _check_after_delete(self, inst, before):
         """An active manager handled 'deleted' and the entry is still gone."""
         cont = before.get(inst)
@@ -387,6 +416,11 @@ class NodeSim(object):
             if os.path.exists(self._p('cache', READY)):
                 return False
             self.stats.count('op:rewrite')
+        elif ('D', inst) in self.queue:
+            # evicted and placed again before the delete event was handled
+            self.stats.count('replaced_with_delete_queued')
+            if self.active and self.links('running').get(inst):
+                self.replaced_backlog = True
         manifest = {'gen': self.next_gen, 'ok': bool(okay), 'task':
                     inst.split('#')[1]}
         self.next_gen += 1
@@ -549,6 +583,8 @@ class NodeSim(object):
             func = getattr(self, 'op_' + op[0])
             done = func(*op[1:])
             self.stats.count('op:' + op[0] if done else 'op_skipped')
+            if done and not self.queue and self.active:
+                self._check_quiescent()
         return self.two_generations or self.sync_with_cleanup
 
 
@@ -560,6 +596,8 @@ def run_case(case, stats):
             stats.count('class:two-generations-on-disk')
         if sim.sync_with_cleanup:
             stats.count('class:sync-while-cleanup-outstanding')
+        if sim.replaced_backlog:
+            stats.count('class:replaced-while-running-delete-still-queued')
         if sim.n_syncs >= 2:
             stats.count('class:resync')
         return nontrivial
